@@ -13,14 +13,19 @@ PROPS = "RlibModel.Props.C16"
 PROFILES = ["release"]
 SHRINK_SEP = ";"
 RULE = ("cases are histories `C16 <item> <stream> ; op ; op …` on a vector of live treaps. `ctl` (priorities written by the case into the "
-        "public field): exhaustive priority assignments for <=4 (<=5 thorough) nodes x split points + random 60-op histories, half of them "
-        "with pairwise distinct priorities; after EVERY operation the heap order of every edge of every live treap is read through the "
-        "public fields (explicit stack), at the end the shape of every treap with distinct priorities is compared with the Cartesian tree "
-        "of its in-order priorities. `own` (rlib's priorities): random histories + explicit adversarial orders (sorted append, front "
-        "insert, alternating ends, append with split-and-swap, random insert/remove) of 300 (quick) / 1500 (thorough) operations, heap "
-        "order and the height bound after every operation. `big` (measured, rlib's priorities): sorted append, front insert, alternating "
-        "ends, middle insert, random positions, and two mixed histories with split-and-swap rotations and removals, at n = 10^3, 10^5 "
-        "(quick) / 10^3, 31623, 10^6 (thorough): size, heap order on every edge, height <= 5*log2(n+1)+20. "
+        "public field): exhaustive priority assignments (ties included) for <=4 (<=5 thorough) nodes x split points x items x build orders "
+        "+ random histories (small, and grown to 20-250 nodes), half of them with pairwise distinct priorities; after EVERY operation the "
+        "heap order of every edge of every live treap is read through the public fields (explicit stack); at the end the shape of every "
+        "live treap is printed — ALWAYS in the raw stream (so merge's tie rule is compared with the model), in the spec-level view when "
+        "its priorities are distinct — against the Cartesian tree of the priority lists computed from the operations and reported sizes "
+        "(`runP`). `own` (rlib's priorities, a fresh thread = fresh priority stream per case): random histories + explicit adversarial "
+        "orders of 300 (quick) / up to 1500 (thorough) steps: sorted append, front insert, alternating ends, append with split-and-swap, "
+        "random insert/remove, sequence assembled from one-element treaps (from_item; Treap::new()+insert_at), appends with a scratch "
+        "Treap::new() merged through in between; heap order, the tie-tolerant edge invariant and the height bound after every operation. "
+        "`big` (measured, rlib's priorities, self-contained: fresh thread per case, `burn k` moves the stream forward): append, front, alt, "
+        "mid, rand, singles (Treap::new()+insert_at merged), fromitem, scratch, and three mixed histories with split-and-swap rotations, "
+        "removals and cut-into-pieces-and-merge-back, at n = 10^3, 10^5 (+ one sorted append of 3*10^5) in quick / 10^3, 31623, 10^6 in "
+        "thorough: size, heap order on every edge, height <= 5*log2(n+1)+20, >= 99.9 % pairwise distinct priorities. "
         "non-trivial = distinct history that creates at least 3 nodes")
 ASSUMPTIONS = [
     "the Lean model of rlib_treap (Model/Treap.lean) is hand-written; it is tied to the code by running both on the same histories",
@@ -32,15 +37,20 @@ MANIFEST = {
     "level": "proof (partial)",
     "text": ("Proved in Lean 4 for arbitrary items, predicates and priorities (ties included): merge, split_at, split_by, insert_at, "
              "remove_at keep min-heap order on every parent-child edge; first/last/collect/root modifiers do not change the shape; "
-             "`heap_history`: after any history on any number of live treaps every live treap is heap-ordered; `shape_canonical`: with "
-             "pairwise distinct priorities a heap-ordered tree IS the Cartesian tree of its in-order priority sequence, so the height after "
-             "any history equals the height of that Cartesian tree (`height_canonical`) — adversarial operation orders have no power "
-             "beyond choosing positions. The model is tied to rlib_treap by a differential run that reads priority/left/right of every "
-             "node through the public fields."),
+             "`heap_history`: after any history on any number of live treaps every live treap is heap-ordered. Shape, WITHOUT assuming "
+             "distinct priorities (32-bit priorities repeat in big trees): merge's rule `ties -> right root` maintains the edge invariant "
+             "HeapR (left child >= parent, right child > parent; `heapR_history`), HeapR alone makes the tree the Cartesian tree of its "
+             "in-order priority sequence (`shape_canonical_ties`), and `history_shape`: after any history the in-order priority lists are "
+             "plain list operations on the priorities of the inserted elements (`runP`: ++, take/drop, insert at k, eraseIdx; split_by "
+             "for every predicate) and the shapes — hence heights — of all live treaps are the Cartesian trees of those lists: "
+             "adversarial operation orders have no power beyond choosing positions. The model is tied to rlib_treap by a differential "
+             "run that reads priority/left/right of every node through the public fields (shapes are compared also with ties)."),
     "note": ("PARTIAL: `height <= 5*log2(n+1)+20` is TESTING, not proof — it depends on the randomness of the priorities drawn by the "
              "library's generator, which is a statistical fact about a PRNG. It is measured on adversarial histories (sorted append, front "
-             "insert, alternating ends, middle insert, split-and-swap, random) up to 10^6 elements in the thorough tier; the measured "
-             "heights are recorded in the evidence. The heap-order and canonical-shape theorems are the proved part and do not depend on it. "
+             "insert, alternating ends, middle insert, split-and-swap, random, sequences assembled from many one-element Treap objects, scratch "
+             "treaps between operations, pieces merged back) up to 10^6 elements in the thorough tier, together with a second measured "
+             "observable (>= 99.9 % of the priorities of a big tree pairwise distinct); the measured heights and distinct counts are "
+             "recorded in the evidence. The heap-order and canonical-shape theorems are the proved part and do not depend on it. "
              "Trusted: Lean kernel, axioms propext/Classical.choice/Quot.sound, the hand-written model, harness and driver plumbing."),
     "technique": "Lean 4 proof of a hand-written model + differential correspondence check + measured height on adversarial histories",
     "design_ref": "DESIGN.md §6 C16",
